@@ -378,6 +378,93 @@ pub fn ep_family(shard: u64, nshards: u64, stride: u64, out: &mut Vec<Crafted>) 
     }
 }
 
+/// "Frozen" e.p. cases: e.p. geometry positions in which the side to move has NO other legal move,
+/// so that the legality of the e.p. capture alone decides between stalemate / mate and a running
+/// game (C03's terminal classification, C11's "no move exists", C12).  Built from `ep_family` cases by
+/// blocking the capturers' pushes and greedily adding enemy attackers around the king; everything
+/// is validated by the model (the pre-position must be a valid root and the double step legal).
+pub fn ep_frozen_family(rng: &mut Rng, shard: u64, nshards: u64, stride: u64, out: &mut Vec<Crafted>) {
+    let mut base = Vec::new();
+    ep_family(shard, nshards, stride, &mut base);
+    for cr in base {
+        let ds = cr.moves[0];
+        let post0 = cr.pre.apply(ds);
+        let me = post0.turn;
+        let opp = me.flip();
+        let mut post = post0.clone();
+        // the position before the double step, derived from a post position
+        let pre_of = |p: &Position| -> Position {
+            let mut q = p.clone();
+            q.board[ds.to as usize] = None;
+            q.board[ds.from as usize] = Some((opp, Kind::P));
+            q.turn = opp;
+            q.ep = None;
+            q
+        };
+        let ok = |p: &Position| -> bool {
+            let q = pre_of(p);
+            q.count(opp) <= 16 && q.chess_root_ok().is_ok() && q.is_legal(ds) && q.apply(ds) == *p
+        };
+        let non_ep_moves = |p: &Position| -> Vec<Mv> { p.legal_moves().into_iter().filter(|m| !p.is_ep_capture(*m)).collect() };
+        let mut success = false;
+        for _round in 0..60 {
+            let rest = non_ep_moves(&post);
+            if rest.is_empty() {
+                success = true;
+                break;
+            }
+            let m = *rng.pick(&rest);
+            let (_, k) = post.board[m.from as usize].unwrap();
+            let mut placed = false;
+            if k != Kind::K {
+                // a non-king man that can move: block a pawn's push, otherwise remove the man
+                let mut q = post.clone();
+                if k == Kind::P && file_of(m.from) == file_of(m.to) && q.board[m.to as usize].is_none() {
+                    q.board[m.to as usize] = Some((opp, if rank_of(m.to) == 0 || rank_of(m.to) == 7 { Kind::N } else { Kind::P }));
+                } else {
+                    q.board[m.from as usize] = None;
+                }
+                if ok(&q) {
+                    post = q;
+                    placed = true;
+                }
+            } else {
+                // attack the king's destination square from a distance
+                for _try in 0..40 {
+                    let kind = *rng.pick(&[Kind::N, Kind::R, Kind::B, Kind::Q, Kind::P, Kind::K]);
+                    let s = rng.below(64) as u8;
+                    if post.board[s as usize].is_some() || s == ds.from {
+                        continue;
+                    }
+                    if kind == Kind::P && (rank_of(s) == 0 || rank_of(s) == 7) {
+                        continue;
+                    }
+                    if kind == Kind::K {
+                        continue;
+                    }
+                    let mut q = post.clone();
+                    q.board[s as usize] = Some((opp, kind));
+                    if !q.attacked(m.to, opp) || q.legal_moves().contains(&m) {
+                        continue;
+                    }
+                    if ok(&q) && non_ep_moves(&q).len() < rest.len() {
+                        post = q;
+                        placed = true;
+                        break;
+                    }
+                }
+            }
+            if !placed {
+                break;
+            }
+        }
+        if success {
+            let pre = pre_of(&post);
+            try_push(out, "ep-frozen", pre, vec![ds]);
+        }
+    }
+}
+
 /// castling x attackers: rights subsets, one enemy piece of each kind on each square, optional
 /// blocker on a path square, both colours.
 pub fn castle_family(out: &mut Vec<Crafted>) {
@@ -573,6 +660,23 @@ pub const CLASSIC_MATES: &[&str] = &[
     "5rk1/2q2p1p/8/8/6N1/8/1B6/K5R1 w - - 0 1",
     "6k1/5ppp/8/8/8/8/8/R5K1 w - - 0 1",
 ];
+
+/// Mates in one by a capture after which only the kings and exactly two minor pieces remain (the
+/// boundary of "insufficient material").  The list was enumerated with this model by the developer
+/// tool mon-core/src/bin/gen-small-mates.rs; every entry is re-validated here (a capture that mates
+/// must exist), both colours.
+pub fn small_material_mates() -> Vec<Position> {
+    let mut out = Vec::new();
+    for line in include_str!("small_material_mates.txt").lines() {
+        let Ok(p) = Position::from_fen(line.trim()) else { continue };
+        for q in [p.clone(), p.mirror()] {
+            if q.chess_root_ok().is_ok() && crate::tags::mating_moves(&q).iter().any(|m| q.is_capture(*m)) {
+                out.push(q);
+            }
+        }
+    }
+    out
+}
 
 /// terminal classification when the 50-move counter is at / beyond its limit: mates in one played
 /// with the half-move clock at 98, 99, 100 and 150 (mate takes precedence over the clock), and
